@@ -46,6 +46,25 @@ def event_items(draw, nodes, max_items=3, max_subs=2, plus=True, reflexive=True,
                 seen2.add(key)
                 out.append(it)
         return out
+    if edges and max_items >= 2 and draw(st.integers(0, 4)) == 0:
+        # twin mode (probability-of-necessity shape): one variable in two worlds that differ in the VALUE of one
+        # subscript, optionally with a shared second subscript and a third, unrelated item
+        p, c = draw(st.sampled_from(sorted(map(tuple, edges))))
+        shared = []
+        rest = [x for x in nodes if x not in (p, c)]
+        if rest and max_subs >= 2 and draw(st.integers(0, 2)) == 0:
+            shared = [[draw(st.sampled_from(rest)), pflag()]]
+        first = bool(draw(st.booleans())) if plus else False
+        tw = [
+            {"v": c, "do": sorted([[p, first]] + shared), "val": pflag()},
+            {"v": c, "do": sorted([[p, (not first) if plus else False]] + shared) if plus else shared, "val": draw(st.booleans()) if plus else False},
+        ]
+        if max_items >= 3 and draw(st.booleans()):
+            v3 = draw(st.sampled_from(nodes))
+            do3 = [] if draw(st.booleans()) else [x for x in tw[0]["do"] if reflexive or x[0] != v3]
+            if (v3, tuple(map(tuple, do3))) not in {(t["v"], tuple(map(tuple, t["do"]))) for t in tw}:
+                tw.append({"v": v3, "do": do3, "val": pflag()})
+        return tw
     world_mode = draw(st.booleans())
     worlds = [[]]
     if world_mode:
@@ -157,6 +176,10 @@ def features(g, items):
     names = [it["v"] for it in items]
     if len(set(names)) < len(names):
         f.add("repeated-variable")
+        for a in items:
+            for b in items:
+                if a["v"] == b["v"] and {n for n, _ in a["do"]} == {n for n, _ in b["do"]} and sorted(map(tuple, a["do"])) != sorted(map(tuple, b["do"])):
+                    f.add("twin-worlds")
     if any(it["v"] in [n for n, _ in it["do"]] for it in items):
         f.add("reflexive-subscript")
     worlds = {tuple(sorted(map(tuple, it["do"]))) for it in items}
